@@ -71,3 +71,146 @@ harness! { fn c05_literals_regenerated_size_capped() {
     match r { Ok(()) => {}, Err(e) => core::mem::forget(e) }
     core::mem::forget(ws);
 } }
+
+// ------------------------------------------------------------------------------------------------ C01: compressed blocks
+// The glue inside decompress_block, through the REAL code without stubs, on compressed blocks whose structure is concrete
+// and whose data is symbolic: literals header -> literal decoder (raw / RLE) -> sequences header -> RLE-mode sequence
+// decoding -> sequence execution -> window copy.  Entropy tables are not involved (RLE modes), so no table construction.
+use crate::decoding::frame_decoder::verif_kani::{ArrSrc, MAXF};
+
+fn run_block(content: &[u8], clen: usize, prior: &[u8], sc: &mut DecoderScratch) -> Result<u64, DecodeBlockContentError> {
+    let mut data = [0u8; MAXF + 4];
+    let mut k = 0; while k < clen { data[k] = content[k]; k += 1; }
+    let mut src = ArrSrc { data, pos: 0, len: clen, chunk: usize::MAX, failed: false, prune: false };
+    sc.buffer.push(prior);
+    let mut d = new();
+    d.internal_state = DecoderState::ReadyToDecodeNextBody;
+    let hdr = BlockHeader { last_block: true, block_type: BlockType::Compressed, decompressed_size: 0, content_size: clen as u32 };
+    d.decode_block_content(&hdr, sc, &mut src)
+}
+
+fn drain_all(sc: &mut DecoderScratch, out: &mut [u8; 24]) -> usize {
+    match sc.buffer.read_all(&mut out[..]) { Ok(n) => n, Err(e) => { core::mem::forget(e); panic!("read_all failed"); } }
+}
+
+// literals only, raw: [ (3<<3)|0 , a, b, c, 0x00 ]
+harness! { fn blk_literals_only_raw() {
+    let a: u8 = nd::any(); let b: u8 = nd::any(); let c: u8 = nd::any();
+    let content = [(3u8 << 3) | 0, a, b, c, 0x00];
+    let mut sc = DecoderScratch::new(1024);
+    let r = run_block(&content, 5, &[], &mut sc);
+    match r { Ok(n) => assert!(n == 5, "bytes consumed by the block"), Err(e) => { core::mem::forget(e); panic!("valid literals-only block refused"); } }
+    let mut out = [0u8; 24];
+    let n = drain_all(&mut sc, &mut out);
+    assert!(n == 3 && out[0] == a && out[1] == b && out[2] == c, "literals-only block decoded wrongly");
+    nd_cover!(true, "decoded");
+    core::mem::forget(sc);
+} }
+
+// literals only, RLE with the 12-bit size format: type 1, size_format 1, regenerated size 5: byte0 = 1 | (1<<2) | ((5&0xF)<<4), byte1 = 5>>4
+harness! { fn blk_literals_only_rle() {
+    let v: u8 = nd::any();
+    let content = [1u8 | (1 << 2) | ((5 & 0xF) << 4), 0, v, 0x00];
+    let mut sc = DecoderScratch::new(1024);
+    let r = run_block(&content, 4, &[], &mut sc);
+    match r { Ok(n) => assert!(n == 4), Err(e) => { core::mem::forget(e); panic!("valid RLE-literals block refused"); } }
+    let mut out = [0u8; 24];
+    let n = drain_all(&mut sc, &mut out);
+    assert!(n == 5, "RLE literals count");
+    let i: usize = nd::any(); nd::assume(i < 5);
+    assert!(out[i] == v);
+    nd_cover!(true, "decoded");
+    core::mem::forget(sc);
+} }
+
+// one sequence, all three tables in RLE mode: prior output [p,q]; literals [a,b,c]; sequence: literal length code LLC
+// (value = code for codes < 16), match length code 1 (length 4), offset code 2 with two symbolic extra bits x:
+// offset value 4+x -> offset 1..=4 (new offset, history updated); then the remaining literals.
+fn one_sequence<const LLC: u8, const X: u8>() {
+    let p: u8 = nd::any(); let q: u8 = nd::any();
+    let a: u8 = nd::any(); let b: u8 = nd::any(); let c: u8 = nd::any();
+    // the two offset extra bits are case-split (a symbolic offset makes the real chunked window copy symbolic: 10 GB)
+    let x: u8 = X;
+    // literals: raw, 3 bytes | sequences: count 1, modes ll=RLE of=RLE ml=RLE, rle bytes in the order ll, of, ml |
+    // bit stream: one byte, padding marker above the two offset extra bits
+    let content = [(3u8 << 3) | 0, a, b, c, 0x01, (1 << 6) | (1 << 4) | (1 << 2), LLC, 2, 1, 0b100 | x];
+    let mut sc = DecoderScratch::new(1024);
+    let r = run_block(&content, 10, &[p, q], &mut sc);
+    let ll = LLC as usize; // codes below 16 are the length itself
+    let off = (1 + x) as usize; // (4 + x) - 3
+    // LZ77 model
+    let mut m = [0u8; 24];
+    m[0] = p; m[1] = q;
+    let lits = [a, b, c];
+    let mut n = 2;
+    let mut k = 0; while k < ll { m[n] = lits[k]; n += 1; k += 1; }
+    let reach_ok = off <= n;
+    if reach_ok { let mut k = 0; while k < 4 { m[n] = m[n - off]; n += 1; k += 1; } }
+    let mut k = ll; while k < 3 { m[n] = lits[k]; n += 1; k += 1; }
+    match r {
+        Ok(used) => {
+            assert!(used == 10, "bytes consumed by the block");
+            assert!(reach_ok, "offset beyond the data accepted");
+            let mut out = [0u8; 24];
+            let got = drain_all(&mut sc, &mut out);
+            assert!(got == 2 + 3 + 4, "regenerated size");
+            let i: usize = nd::any(); nd::assume(i < 9);
+            assert!(out[i] == m[i], "one-sequence block differs from the LZ77 model");
+            assert!(sc.offset_hist[0] == off as u32 && sc.offset_hist[1] == 1 && sc.offset_hist[2] == 4, "repeat offset history after a new offset");
+        }
+        Err(e) => { core::mem::forget(e); assert!(!reach_ok, "valid one-sequence block refused"); }
+    }
+    nd_cover!(true, "block processed");
+    core::mem::forget(sc);
+}
+harness! { fn blk_one_sequence_ll2_off1() { one_sequence::<2, 0>(); } }
+harness! { fn blk_one_sequence_ll2_off4() { one_sequence::<2, 3>(); } }
+harness! { fn blk_one_sequence_ll0_off2() { one_sequence::<0, 1>(); } }
+harness! { fn blk_one_sequence_ll3_off3() { one_sequence::<3, 2>(); } }
+harness! { fn blk_one_sequence_ll0_off3_unreachable() { one_sequence::<0, 2>(); } }
+
+// two sequences, RLE modes, offset code 1 (one extra bit each: offset values 2 or 3 = repeat offsets), literal length 1,
+// match length 3; prior output 4 bytes; literals [a,b,c].  Exercises the repeat-offset history across sequences
+// through the real sequence decoder and executor; the model uses the RFC transcription of the offset rules.
+fn two_sequences<const S1: u8, const S2: u8>() {
+    let prior: [u8; 4] = nd::any();
+    let a: u8 = nd::any(); let b: u8 = nd::any(); let c: u8 = nd::any();
+    let content = [(3u8 << 3) | 0, a, b, c, 0x02, (1 << 6) | (1 << 4) | (1 << 2), 1, 1, 0, 0b100 | (S1 << 1) | S2];
+    let mut sc = DecoderScratch::new(1024);
+    let r = run_block(&content, 10, &prior, &mut sc);
+    let mut m = [0u8; 24];
+    let mut n = 4;
+    let mut k = 0; while k < 4 { m[k] = prior[k]; k += 1; }
+    let lits = [a, b, c];
+    let mut hist = [1u32, 4, 8];
+    let mut ok = true;
+    let mut sidx = 0;
+    while sidx < 2 {
+        let ofv = 2 + if sidx == 0 { S1 } else { S2 } as u32;
+        m[n] = lits[sidx]; n += 1;
+        let (off, nh) = crate::decoding::sequence_execution::verif_kani::spec(ofv, 1, hist);
+        hist = nh;
+        if off == 0 || off as usize > n { ok = false; break; }
+        let mut j = 0; while j < 3 { m[n] = m[n - off as usize]; n += 1; j += 1; }
+        sidx += 1;
+    }
+    if ok { m[n] = lits[2]; n += 1; }
+    match r {
+        Ok(used) => {
+            assert!(used == 10);
+            assert!(ok, "unreachable repeat offset accepted");
+            let mut out = [0u8; 24];
+            let got = drain_all(&mut sc, &mut out);
+            assert!(got == n, "regenerated size");
+            let i: usize = nd::any(); nd::assume(i < n);
+            assert!(out[i] == m[i], "two-sequence block differs from the LZ77 model with RFC repeat-offset rules");
+            assert!(sc.offset_hist[0] == hist[0] && sc.offset_hist[1] == hist[1] && sc.offset_hist[2] == hist[2], "repeat offset history differs from the RFC rules");
+        }
+        Err(e) => { core::mem::forget(e); assert!(!ok, "valid two-sequence block refused"); }
+    }
+    nd_cover!(true, "block processed");
+    core::mem::forget(sc);
+}
+harness! { fn blk_two_sequences_rep2_rep2() { two_sequences::<0, 0>(); } }
+harness! { fn blk_two_sequences_rep2_rep3() { two_sequences::<0, 1>(); } }
+harness! { fn blk_two_sequences_rep3_unreachable() { two_sequences::<1, 0>(); } }
